@@ -9,8 +9,8 @@ RULE = ("every case drives the REAL ExecutionBuilder: a list of instrument defin
         "{0,10,100,101} ms, fee in {0,0.001,0.01,0.1,0.25}, one balance per asset exchange name of that exchange in shuffled order with pairwise different amounts; 8 % spoiled: a balance "
         "missing, or a balance for a name the exchange has no asset for), add_live of a recording stub client (20 %) or nothing (10 %), 6 % an extra add for an absent or repeated exchange; "
         "`build`: ExecutionBuilder::new, the adds in order (panics caught and classified by their message), build(), init() on a current-thread tokio runtime with paused clock, "
-        "the runtime then runs to quiescence (virtual 3 s) after every operation and stays alive for the rest of the case; then 2-9 / 2-14 open requests sent exactly as Engine::send_request "
-        "does (execution_txs.find(&ExchangeIndex(x)) then send): exchange index 0..len (5 % out of range), 85 % an instrument of that exchange else any index 0..=len, buy / sell, market "
+        "the runtime then runs to quiescence (virtual 3 s) after every operation and stays alive for the rest of the case; then 2-9 / 2-14 open requests sent through the REAL Engine::send_request "
+        "(engine/action/send_requests.rs; the engine owns the builder's transmitter table): exchange index 0..len (5 % out of range), 85 % an instrument of that exchange else any index 0..=len, buy / sell, market "
         "92 % / limit, price in {0.5,1,2,3,10}, quantity in {0,0.5,1,2,7,50,1000,-1}. Observed per op: result class of build (panic kind / asset with the position of the failing add, "
         "Err index / duplicate with position, build panic, init error, ok), the slots of the MultiExchangeTxMap, the three lengths of ExecutionHandles, the indexed initial account snapshot "
         "of every link (asset index : amount); per request: no transmitter / channel closed / manager panicked / live stub called with (exchange id, instrument name) / mock, and everything "
@@ -83,7 +83,7 @@ LEVEL_TEXT = ("Proof (sub-check of C04). lean/BarterModel/Props/C04M.lean, 26 th
               "same_assets_for_every_order (a request for (exchange index x, instrument index i) that reaches a mock: i belongs to that exchange; the order snapshot comes back under (x, i); the balance "
               "that moves - or is reported insufficient - is the instrument's own QUOTE asset index for a buy, BASE for a sell; the trade is on instrument index i with the requested side / price / "
               "quantity: C02's position index and C09's balance indices are the ones C08's ledger debits), ledger_is_C08 (the task's ledger = MockExchange.run from `toCfg` on the requests seen: all of "
-              "Props/C08 applies), configured_balances_keep_it_alive (wf iff every table name has a balance; all assets configured => wf; then no request kills the task), engine_view_refinement (whole "
+              "Props/C08 applies), configured_balances_keep_it_alive (wf iff every table name has a balance; all assets configured => wf; then no request kills the task), reject_outcome_refines_view (an order that is not filled comes back under its own key with `rejected` for a non-market order, else `insufficient <the asset INDEX it would have spent>`: spec key `order` also when no fill is prescribed), init_snapshot_refines_view (the indexed initial account snapshot is, for every asset index of the exchange, the configured amount: spec key `snap<x>`), manager_request_addressed (the client of a live link too is addressed with exchange id + instrument exchange name, or the manager refuses: spec key `r live`), engine_view_refinement (whole "
               "histories: observations = the C08 SPECIFICATION exchange over engine indices - asset index, amount, fill - nothing when it prescribes nothing; names and positions gone). Non-vacuity "
               "examples incl. an evaluated end-to-end pipeline and a witness of `ViewHyp`. Tied to the code on every run by executing the same operations against the real code.")
 LEVEL_NOTE = ("Trusted: Lean kernel; axioms propext/Classical.choice/Quot.sound only; the hand-written model (sampled correspondence: 600 quick / 15 000 random + 175 + 93 enumerated + 7 corpus cases thorough; "
